@@ -384,7 +384,9 @@ func c02worker(arg string) {
 			for i := 0; i < 5; i++ {
 				reset()
 				x2 := vrt.Run(choices, 20000, !thorough, body)
-				if k2, _ := judge(x2); k2 != k || rec.outcome(p) != got || x2.Diverged != "" {
+				// (a deadlocked execution has no complete outcome: the threads that never returned left whatever
+				// an earlier execution wrote in their slots, so only the verdict is compared there)
+				if k2, _ := judge(x2); k2 != k || (!strings.HasSuffix(k, "/deadlock") && rec.outcome(p) != got) || x2.Diverged != "" {
 					st.Diverged = fmt.Sprintf("%s: violation %q not reproduced identically on re-execution %d (got %q %s)", p.String(t), k, i+1, k2, x2.Diverged)
 					return
 				}
